@@ -10,6 +10,7 @@ import Driver.C08
 import Driver.C09
 import Driver.C10
 import Driver.C05
+import Driver.C07
 
 /-- global driver state: one slot per stateful model -/
 structure St where
@@ -20,6 +21,7 @@ structure St where
   c18 : Driver.C18.DSt := Driver.C18.init
   c10 : Driver.C10.State := Driver.C10.init
   c05 : Driver.C05.State := Driver.C05.init
+  c07 : Driver.C07.State := Driver.C07.init
 
 def stepLine (st : St) (line : String) : St × String :=
   match (line.trimAscii.toString.splitOn " ").filter (· ≠ "") with
@@ -27,6 +29,7 @@ def stepLine (st : St) (line : String) : St × String :=
   | "C19" :: rest => let (s', o) := Driver.C19.step st.c19 rest; ({ st with c19 := s' }, o)
   | "C02" :: rest => let (s', o) := Driver.C02.step st.c02 rest; ({ st with c02 := s' }, o)
   | "C10" :: rest => let (s', o) := Driver.C10.step st.c10 rest; ({ st with c10 := s' }, o)
+  | "C07" :: rest => let (s', o) := Driver.C07.step st.c07 rest; ({ st with c07 := s' }, o)
   | "C05" :: rest => let (s', o) := Driver.C05.step st.c05 rest; ({ st with c05 := s' }, o)
   | "C09" :: rest => (st, Driver.C09.step rest)
   | "C08" :: rest => (st, Driver.C08.step rest)
